@@ -55,7 +55,9 @@ def names_oracle(raw):
 
 
 BAD_NAMES = ['CUSTOM_BAR\n', 'custom_lower', 'CUSTOM_', 'CUSTOM_a', 'CUSTOM_A B', 'CUSTOM_Ä', 'VCPU', 'CUSTOM_' + 'A' * 249,
-             'CUSTOM-DASH', ' CUSTOM_LEAD', 'CUSTOM_TAB\t', 'XCUSTOM_A', 'CUSTOM_A\r\n', 'CUSTOM_OK1', 'CUSTOM_' + 'Z' * 248]
+             'CUSTOM-DASH', ' CUSTOM_LEAD', 'CUSTOM_TAB\t', 'XCUSTOM_A', 'CUSTOM_A\r\n', 'CUSTOM_OK1', 'CUSTOM_' + 'Z' * 248,
+             # names that are JSON escapes when pasted into JSON text (a literal backslash follows CUSTOM_)
+             'CUSTOM_\\u0041', 'CUSTOM_\\u005f', 'CUSTOM_\\n', 'CUSTOM_A\\', 'CUSTOM_A","x":"1', 'CUSTOM_\\/B', '%43USTOM_PCT']
 
 
 def malformed_stream(viols, stats):
